@@ -9,6 +9,7 @@ import (
 	"testing"
 	"time"
 
+	"github.com/cloudwego/hertz/pkg/app/client/retry"
 	"github.com/cloudwego/hertz/pkg/common/config"
 	"github.com/cloudwego/hertz/pkg/network"
 	"github.com/cloudwego/hertz/pkg/network/netpoll"
@@ -191,6 +192,60 @@ func TestC10TLSStall(t *testing.T) {
 				ev.Fail(prop, "tls-stall", map[string]interface{}{"tls": tlsOn, "mode": mode}, msg)
 				t.Errorf("%s", msg)
 			}
+		}
+	}
+}
+
+// TestC10RetryPause: a retry policy with a pause between attempts (RetryConfig.Delay) and a custom
+// RetryIf. The pause is part of the call: "a call given a request timeout returns no later than that
+// timeout plus slack", also when the time is spent sleeping between attempts. The peer closes before the
+// first response byte, every time. The sleep is a hard lower bound, no load explains a late return.
+func TestC10RetryPause(t *testing.T) {
+	rec := ev.New("retry-pause")
+	const timeout = 300 * time.Millisecond
+	for _, delay := range []time.Duration{50 * time.Millisecond, 2 * time.Second} {
+		ln, err := net.Listen("tcp", "127.0.0.1:0")
+		if err != nil {
+			t.Fatalf("listen: %v", err)
+		}
+		var accepted int32
+		go func() {
+			for {
+				c, err := ln.Accept()
+				if err != nil {
+					return
+				}
+				atomic.AddInt32(&accepted, 1)
+				buf := make([]byte, 4096)
+				c.Read(buf) //nolint:errcheck
+				c.Close()
+			}
+		}()
+		opts := &http1.ClientOptions{Dialer: standard.NewDialer(), MaxConns: 2, DialTimeout: time.Second,
+			RetryConfig: &retry.Config{MaxAttemptTimes: 3, Delay: delay, DelayPolicy: retry.FixedDelayPolicy},
+			RetryIfFunc: func(req *protocol.Request, resp *protocol.Response, err error) bool { return err != nil }}
+		hc := http1.NewHostClient(opts).(*http1.HostClient)
+		hc.Addr = ln.Addr().String()
+		req, resp := protocol.AcquireRequest(), protocol.AcquireResponse()
+		req.SetRequestURI("http://example.com/flaky")
+		req.SetOptions(config.WithRequestTimeout(timeout), config.WithDialTimeout(time.Second))
+		probe := loadsense.Start()
+		t0 := time.Now()
+		callErr := hc.Do(context.Background(), req, resp)
+		el := time.Since(t0)
+		ln.Close()
+		rec.Case(true, ev.HashString(delay.String()), "retry-delay-"+delay.String())
+		if callErr == nil {
+			t.Errorf("delay %v: the call succeeded against a peer that closes every connection", delay)
+			continue
+		}
+		if el > timeout+1500*time.Millisecond && (delay >= time.Second || probe.Stalled() < loadsense.Busy) {
+			msg := fmt.Sprintf("RetryConfig{MaxAttemptTimes: 3, Delay: %v}: a call with a request timeout of %v returned after %v (%d connections accepted by the peer), error %v: the pauses between the attempts are not bounded by the request timeout", delay, timeout, el, atomic.LoadInt32(&accepted), callErr)
+			ev.Fail(prop, "retry-pause", map[string]interface{}{"delay": delay.String()}, msg)
+			t.Errorf("%s", msg)
+		}
+		if hc.PendingRequests() != 0 {
+			t.Errorf("delay %v: PendingRequests()=%d after the call returned", delay, hc.PendingRequests())
 		}
 	}
 }
